@@ -313,6 +313,12 @@ Proof.
     + intros g [Hg|Hg]; [subst g; apply (Hwf (k0, es)); now left|now apply Hwf2].
 Qed.
 
+Lemma filter_true_all : forall l : list entry, filter (Pe (fun _ => true)) l = l.
+Proof. induction l as [|x l IH]; cbn; auto. now rewrite IH. Qed.
+
+Lemma filter_len_le : forall (A : Type) (f : A -> bool) l, length (filter f l) <= length l.
+Proof. induction l as [|x l IH]; cbn; auto. destruct (f x); cbn; lia. Qed.
+
 (* -- the matcher-level facts the server proofs use -- *)
 
 Definition pm (q : path) : pat -> bool := fun p => pat_matches p q.
@@ -329,7 +335,8 @@ Lemma count_matching_set_filter : forall m p f q, count_matching (m_set_filter m
 Proof.
   intros m p f q. unfold m_set_filter. destruct (m_get m p) as [e|] eqn:E; auto.
   unfold count_matching, all_entries. cbn [m_groups].
-  rewrite (groups_put_count (pm q)). cbn [e_pat]. unfold m_get in E. rewrite E. lia.
+  pose proof (groups_put_count (pm q) (m_groups m) (length p) (mkEntry p f)) as H.
+  unfold Pe, pm in H. cbn [e_pat] in H. unfold m_get in E. rewrite E in H. rewrite H. lia.
 Qed.
 
 Lemma count_matching_remove : forall m p m' q, m_remove m p = Some m' ->
@@ -364,7 +371,7 @@ Lemma num_entries_put : forall m p f, num_entries (m_put m p f) <= S (num_entrie
 Proof.
   intros m p f. unfold num_entries, all_entries, m_put. destruct p as [|c p]; [lia|]. cbn [m_groups].
   pose proof (groups_put_count (fun _ => true) (m_groups m) (length (c :: p)) (mkEntry (c :: p) f)) as H.
-  rewrite !filter_true_all in H. destruct (entries_get _ _); cbn in H; lia.
+  rewrite !filter_true_all in H. destruct (entries_get _ _); unfold b2n in H; lia.
 Qed.
 
 Lemma num_entries_set_filter : forall m p f, num_entries (m_set_filter m p f) = num_entries m.
@@ -384,7 +391,7 @@ Proof.
 Qed.
 
 Lemma count_le_entries : forall m q, count_matching m q <= num_entries m.
-Proof. intros m q. unfold count_matching, num_entries. apply filter_length_le. Qed.
+Proof. intros m q. unfold count_matching, num_entries. apply filter_len_le. Qed.
 
 (* the one-pattern matcher used to mark / unmark the nodes of one subscription *)
 Lemma single_wf : forall p, p <> [] -> wf_groups (m_groups (m_put empty_matcher p None)).
